@@ -774,6 +774,34 @@ def run(ctx):
     ctx.compare("real publishes end to end: per-request outcome (answered / failed before / executed but answer lost) in "
                 "arrival order -> result, bookkeeping sets, and the slots that hold the new version on disk",
                 acc["rpc_cases"], acc["rpc_impl"], ctx.model(acc["rpc_lines"]))
+    # publish()/update(): one write proxy per goal entry (real set-up code, both formats, creation and update)
+    wl, wi, wc = [], [], []
+    from allmydata.mutable.servermap import ServerMap
+    from allmydata.mutable.common import MODE_WRITE
+    combos = [] if ctx.replay else ([(2, 5, 3, False, "publish"), (1, 3, 1, True, "publish"), (3, 10, 4, False, "update"),
+                                     (2, 4, 6, True, "update")] +
+                                    [(ctx.rng.randrange(1, 4), ctx.rng.randrange(3, 11), ctx.rng.randrange(1, 8),
+                                      ctx.rng.random() < 0.5, ctx.rng.choice(["publish", "update"]))
+                                     for _ in range(0 if corpus_only() else ctx.budget(40, 400))])
+    for (k_, n_, ns_, mdmf_, op_) in combos:
+        servers_ = [mc.FakeServer(i) for i in range(ns_)]
+        sm_, ver_ = None, None
+        if op_ == "update":
+            sm_ = ServerMap()
+            ver_ = (3, b"r" * 32, None if mdmf_ else b"i" * 16, 6, 6, k_, n_, b"p", ())
+            for sh_ in range(0, n_, 2):
+                sm_.add_new_share(servers_[sh_ % ns_], sh_, ver_, 0)
+            sm_.set_last_update(MODE_WRITE, 0)
+        try:
+            p_, _e = mc.real_publish(k_, n_, servers_, sm_, mdmf=mdmf_, op=op_, version=ver_)
+            goal_ = sorted((s_.i, sh_) for (s_, sh_) in p_.goal)
+            wi.append(",".join("%d@%d" % x for x in sorted((w_.shnum, w_.server.i) for ws_ in p_.writers.values() for w_ in ws_)) or "-")
+        except Exception as e:
+            goal_, _ = [], wi.append("harness-exception:" + type(e).__name__)
+        wl.append("wog " + (",".join("%d.%d" % x for x in goal_) or "-"))
+        wc.append({"kind": "wog", "k": k_, "n": n_, "servers": ns_, "mdmf": mdmf_, "op": op_})
+        ctx.case(("wog", k_, n_, ns_, mdmf_, op_))
+    ctx.compare("write proxies created by the real publish()/update() set-up vs writersOfGoal(goal)", wc, wi, ctx.model(wl))
     # the write proxies: what the Deferred handed to Publish fires with
     pc, pi, pl = [], [], []
     rpcs = [] if ctx.replay else ([("B",), ("L", True), ("A", False, [(0, 9)]), ("A", True, [(0, 3)])] +
